@@ -57,6 +57,10 @@ func Gen(seed uint64, profile string) *Scenario {
 		if r.Chance(1, 4) {
 			n = 2 + r.Intn(2)
 		}
+		if simkit.NewRNG(seed, "uw/wf-allow").Chance(1, 10) {
+			// links to an allow-listed place outside are part of a well-formed archive for this Packer
+			sc.Allow = []string{"/w/ext"}
+		}
 		st := newGenState(sc)
 		for i := 0; i < n; i++ {
 			wipe := i > 0 && r.Chance(1, 3)
@@ -329,6 +333,11 @@ func genWellformed(r *simkit.RNG, st *genState) Archive {
 			case 3:
 				// large enough for the decompressed stream to pass a 32 KiB window boundary inside a body
 				e.Pad = simkit.Pick(r, []int{14000, 20000, 30000})
+			case 4:
+				if r.Chance(1, 5) {
+					// a megabyte of data followed by a tail of zeros (a disk image, a preallocated file)
+					e.Pad, e.Zero = 1048576+r.Intn(5000), simkit.Pick(r, []int{4096, 8192, 20000})
+				}
 			}
 			e.Name = decorateOK(r, p, false)
 		case 1:
@@ -340,6 +349,10 @@ func genWellformed(r *simkit.RNG, st *genState) Archive {
 			e.Mode = 0o777
 			e.Name = decorateOK(r, p, false)
 			e.Link = okLinkTarget(r, p)
+			if len(st.m.Allow) > 0 && r.Chance(1, 3) {
+				// recorded as written, however it is spelled
+				e.Link = simkit.Pick(r, []string{"/w/ext/file", "/w/ext/dir/", "/w/ext//dir", "/w/ext/./file", "/w/ext/dir/../file", "/w/ext"})
+			}
 		}
 		dec := model.DEntry{Name: e.Name, Type: typeFlags[e.Type], Mode: e.Mode, Link: e.Link}
 		if e.Type == "rega" {
@@ -438,6 +451,7 @@ var hostileTargets = []string{
 	"/w/ext", "/w/ext/file", "../ext/file",
 	"../shared/keep", "../shared-secrets/keep", "../shared-secrets", "../sharedx",
 	"../releases/v1/data", "../releases/v1",
+	"..\\victim", "..\\..\\victim", "\\etc\\shadow", "\\w\\victim", "a\\..\\..\\victim",
 }
 
 func hostileName(r *simkit.RNG) string {
